@@ -47,7 +47,20 @@ func (w *World) dosSiteArgs(g *Grammar) ([][]AVal, []ssa.Instruction) {
 	var sites []ssa.Instruction
 	for _, fn := range w.AllFuncs {
 		if !g.isParserMethod(fn) {
-			continue
+			// or a plain constructor helper the parser calls (newDescendantOrSelfNode(input))
+			helper := false
+			if fn.Signature.Recv() == nil && fn.Parent() == nil && fn != g.NewAxis {
+				if n := w.CG.Nodes[fn]; n != nil {
+					for _, e := range n.In {
+						if g.isParserMethod(rootFn(e.Caller.Func)) {
+							helper = true
+						}
+					}
+				}
+			}
+			if !helper {
+				continue
+			}
 		}
 		eachInstr(fn, false, func(_ *ssa.Function, in ssa.Instruction) {
 			c, ok := in.(*ssa.Call)
